@@ -345,32 +345,48 @@ struct Case {
   kind: Kind,
   /// how struct patterns are written, see `render_spelt`
   spelling: u8,
+  /// where the match / let / if-let stands, see `source_line`
+  placement: u8,
 }
 
 impl Case {
   fn source_line(&self, i: usize) -> String {
     let t = self.ty.text();
     let render = |p: &Pat, ty: &Ty| render_spelt(p, ty, self.spelling);
-    match &self.kind {
+    // arm / branch bodies: literals in the plain placement, calls elsewhere (the checker treats
+    // "simple" and other argument expressions differently)
+    let v = |k: usize| if self.placement == 0 { k.to_string() } else { format!("Main.k({k})") };
+    let e = match &self.kind {
       Kind::Match(arms) => format!(
-        "  function f{i}(x: {t}): int = match x {{ {} }}",
-        arms.iter().enumerate().map(|(k, p)| format!("{} -> {k}", render(p, &self.ty))).collect::<Vec<_>>().join(", ")
+        "match x {{ {} }}",
+        arms.iter().enumerate().map(|(k, p)| format!("{} -> {}", render(p, &self.ty), v(k))).collect::<Vec<_>>().join(", ")
       ),
-      Kind::Let(p) => format!("  function f{i}(x: {t}): int = {{ let {} = x; 0 }}", render(p, &self.ty)),
-      Kind::IfLet(p) => format!("  function f{i}(x: {t}): int = if let {} = x {{ 1 }} else {{ 0 }}", render(p, &self.ty)),
-    }
+      Kind::Let(p) => format!("{{ let {} = x; {} }}", render(p, &self.ty), v(0)),
+      Kind::IfLet(p) => format!("if let {} = x {{ {} }} else {{ {} }}", render(p, &self.ty), v(1), v(0)),
+    };
+    // where the construct stands: 0 = the function body, 1 = argument of a generic function,
+    // 2 = argument of a generic constructor inside a generic call, 3 = body of an annotated lambda
+    // passed to a generic function, 4 = initialiser of an unannotated let
+    let body = match self.placement {
+      0 => e,
+      1 => format!("Main.id({e})"),
+      2 => format!("Main.size(Opt.Some({e}))"),
+      3 => format!("Main.app((u: int) -> {e}, 0)"),
+      _ => format!("{{ let r = {e}; r }}"),
+    };
+    format!("  function f{i}(x: {t}): int = {body}")
   }
   fn describe(&self) -> String {
     self.source_line(0).trim().to_string()
   }
 }
 
-const HEADER_LINES: usize = 14; // import line + DECLS (12) + "class Main {"
+const HEADER_LINES: usize = 18; // import line + DECLS (12) + "class Main {" + 4 helper functions
 
 fn module_text(cases: &[Case]) -> String {
   let mut s = String::from("import { Pair } from std.tuples\n");
   s.push_str(DECLS);
-  s.push_str("class Main {\n");
+  s.push_str("class Main {\n  function <T> id(t: T): T = t\n  function k(n: int): int = n\n  function <T> size(o: Opt<T>): int = 0\n  function <A, B> app(f: (A) -> B, a: A): B = f(a)\n");
   for (i, c) in cases.iter().enumerate() {
     s.push_str(&c.source_line(i));
     s.push('\n');
@@ -462,7 +478,7 @@ fn main() {
         }
       }
       for l in &next {
-        cases.push(Case { ty: ty.clone(), kind: Kind::Match(l.clone()), spelling: 0 });
+        cases.push(Case { ty: ty.clone(), kind: Kind::Match(l.clone()), spelling: 0, placement: 0 });
       }
       lists = next;
       // the largest types would explode at 4 arms: bound them by pattern count
@@ -471,8 +487,8 @@ fn main() {
       }
     }
     for p in &ps {
-      cases.push(Case { ty: ty.clone(), kind: Kind::Let(p.clone()), spelling: 0 });
-      cases.push(Case { ty: ty.clone(), kind: Kind::IfLet(p.clone()), spelling: 0 });
+      cases.push(Case { ty: ty.clone(), kind: Kind::Let(p.clone()), spelling: 0, placement: 0 });
+      cases.push(Case { ty: ty.clone(), kind: Kind::IfLet(p.clone()), spelling: 0, placement: 0 });
     }
     if matches!(ty, Ty::Wide16 | Ty::Wide16L | Ty::Wide9) {
       continue;
@@ -483,9 +499,9 @@ fn main() {
     let shallow: Vec<Pat> = pats(ty, 1);
     let pool: Vec<&Pat> = same.iter().chain(shallow.iter()).collect();
     for p in &same {
-      cases.push(Case { ty: ty.clone(), kind: Kind::Let(p.clone()), spelling: 0 });
-      cases.push(Case { ty: ty.clone(), kind: Kind::IfLet(p.clone()), spelling: 0 });
-      cases.push(Case { ty: ty.clone(), kind: Kind::Match(vec![p.clone()]), spelling: 0 });
+      cases.push(Case { ty: ty.clone(), kind: Kind::Let(p.clone()), spelling: 0, placement: 0 });
+      cases.push(Case { ty: ty.clone(), kind: Kind::IfLet(p.clone()), spelling: 0, placement: 0 });
+      cases.push(Case { ty: ty.clone(), kind: Kind::Match(vec![p.clone()]), spelling: 0, placement: 0 });
     }
     let third: Vec<Option<&Pat>> = if run.quick() { vec![None] } else { std::iter::once(None).chain(shallow.iter().map(Some)).collect() };
     for (ai, a) in pool.iter().enumerate() {
@@ -498,7 +514,7 @@ fn main() {
           if let Some(c) = c {
             arms.push((*c).clone());
           }
-          cases.push(Case { ty: ty.clone(), kind: Kind::Match(arms), spelling: 0 });
+          cases.push(Case { ty: ty.clone(), kind: Kind::Match(arms), spelling: 0, placement: 0 });
         }
       }
     }
@@ -529,16 +545,16 @@ fn main() {
     }
     space.insert(format!("wide_rows_for_{}", ty.text()), json!(rows.len()));
     for r in &rows {
-      cases.push(Case { ty: ty.clone(), kind: Kind::Let(r.clone()), spelling: 0 });
-      cases.push(Case { ty: ty.clone(), kind: Kind::IfLet(r.clone()), spelling: 0 });
-      cases.push(Case { ty: ty.clone(), kind: Kind::Match(vec![r.clone()]), spelling: 0 });
+      cases.push(Case { ty: ty.clone(), kind: Kind::Let(r.clone()), spelling: 0, placement: 0 });
+      cases.push(Case { ty: ty.clone(), kind: Kind::IfLet(r.clone()), spelling: 0, placement: 0 });
+      cases.push(Case { ty: ty.clone(), kind: Kind::Match(vec![r.clone()]), spelling: 0, placement: 0 });
     }
     for a in &rows {
       for c in &rows {
-        cases.push(Case { ty: ty.clone(), kind: Kind::Match(vec![a.clone(), c.clone()]), spelling: 0 });
+        cases.push(Case { ty: ty.clone(), kind: Kind::Match(vec![a.clone(), c.clone()]), spelling: 0, placement: 0 });
         if !run.quick() || ty == Ty::Wide16 {
           for d in rows.iter().step_by(if run.quick() { 4 } else { 1 }) {
-            cases.push(Case { ty: ty.clone(), kind: Kind::Match(vec![a.clone(), c.clone(), d.clone()]), spelling: 0 });
+            cases.push(Case { ty: ty.clone(), kind: Kind::Match(vec![a.clone(), c.clone(), d.clone()]), spelling: 0, placement: 0 });
           }
         }
       }
@@ -564,6 +580,26 @@ fn main() {
   }
   space.insert("cases_under_other_struct_field_spellings".into(), json!(respelt.len()));
   cases.extend(respelt);
+  // placements: every case with at most two arms (all cases of the two smallest types), every let and
+  // if-let, again as an argument of a generic call / generic constructor, inside an annotated lambda
+  // passed to a generic function and as a let initialiser (the checker visits these in another mode)
+  let mut placed: Vec<Case> = vec![];
+  for c in &cases {
+    if c.spelling != 0 {
+      continue;
+    }
+    let small = match &c.kind {
+      Kind::Match(arms) => arms.len() <= 2 || matches!(c.ty, Ty::B2 | Ty::OptB2),
+      _ => true,
+    };
+    if small {
+      for placement in 1..=4u8 {
+        placed.push(Case { placement, ..c.clone() });
+      }
+    }
+  }
+  space.insert("cases_in_other_placements".into(), json!(placed.len()));
+  cases.extend(placed);
   space.insert("total_cases".into(), json!(cases.len()));
   let value_cache: HashMap<Ty, Vec<Val>> = types.iter().chain(wide_types.iter()).map(|t| (t.clone(), values(t, 4))).collect();
   let evaluated = AtomicU64::new(0);
